@@ -175,12 +175,82 @@ var totalFns = []totalFn{
 		}
 		return false, 0, nil
 	}},
+	// ValueReader: its three readers on a used reader, and its two exported handler methods called directly and
+	// handed to the traversal functions, on a zero reader and on a used one
+	{"ValueReader.ReadValue(used)", func(d []byte, b *rjson.Buffer) (bool, int, error) {
+		_, p, err := usedVR().ReadValue(d)
+		return true, p, err
+	}},
+	{"ValueReader.ReadObject(used)", func(d []byte, b *rjson.Buffer) (bool, int, error) {
+		_, p, err := usedVR().ReadObject(d)
+		return true, p, err
+	}},
+	{"ValueReader.ReadArray(used)", func(d []byte, b *rjson.Buffer) (bool, int, error) {
+		_, p, err := usedVR().ReadArray(d)
+		return true, p, err
+	}},
+	{"ValueReader.HandleArrayValue(zero)", func(d []byte, b *rjson.Buffer) (bool, int, error) {
+		var z rjson.ValueReader
+		p, err := z.HandleArrayValue(d)
+		return true, p, err
+	}},
+	{"ValueReader.HandleObjectValue(zero)", func(d []byte, b *rjson.Buffer) (bool, int, error) {
+		var z rjson.ValueReader
+		p, err := z.HandleObjectValue(keyOf(d), d)
+		return true, p, err
+	}},
+	{"ValueReader.HandleArrayValue(used)", func(d []byte, b *rjson.Buffer) (bool, int, error) {
+		p, err := usedVR().HandleArrayValue(d)
+		return true, p, err
+	}},
+	{"ValueReader.HandleObjectValue(used)", func(d []byte, b *rjson.Buffer) (bool, int, error) {
+		p, err := usedVR().HandleObjectValue(keyOf(d), d)
+		return true, p, err
+	}},
+	{"HandleArrayValues(zero ValueReader)", func(d []byte, b *rjson.Buffer) (bool, int, error) {
+		var z rjson.ValueReader
+		p, err := rjson.HandleArrayValues(d, &z, b)
+		return true, p, err
+	}},
+	{"HandleObjectValues(zero ValueReader)", func(d []byte, b *rjson.Buffer) (bool, int, error) {
+		var z rjson.ValueReader
+		p, err := rjson.HandleObjectValues(d, &z, b)
+		return true, p, err
+	}},
+	{"HandleArrayValues(used ValueReader)", func(d []byte, b *rjson.Buffer) (bool, int, error) {
+		p, err := rjson.HandleArrayValues(d, usedVR(), b)
+		return true, p, err
+	}},
+	{"HandleObjectValues(used ValueReader)", func(d []byte, b *rjson.Buffer) (bool, int, error) {
+		p, err := rjson.HandleObjectValues(d, usedVR(), b)
+		return true, p, err
+	}},
+}
+
+// usedVR returns a reader with a fixed history (recreated for every event, so that replay sees the same reader).
+var curVR *rjson.ValueReader
+
+func usedVR() *rjson.ValueReader {
+	if curVR == nil {
+		curVR = new(rjson.ValueReader)
+		warmUp(curVR)
+	}
+	return curVR
+}
+
+// keyOf: the field name handed to a directly called HandleObjectValue: a short piece of the hostile input itself.
+func keyOf(d []byte) []byte {
+	if len(d) > 12 {
+		return d[len(d)-12:]
+	}
+	return d
 }
 
 var sharedTotalBuf rjson.Buffer
 
 func runTotal(sw *shardWriter, j *jb, data []byte, segs []seg, st *genStats) {
 	orig := append([]byte{}, data...)
+	curVR = nil
 	j.reset()
 	j.raw(`{"op":"total",`)
 	if segs != nil {
